@@ -493,21 +493,13 @@ def sidecarLoad (m : TMesh) : Option (List (String × H5Region)) → M TMesh
     (mapE (fun p => (regionLoad p.2).bind fun s => .ok (p.1, s)) l).bind fun ss =>
       (setSubs m.region m.n (dictOf ss)).bind fun ss' => .ok { m with subs := ss' }
 
-/-- `_h5_legacy_load_field`, parameterised by what reaches `Field.__init__` as `nvdim`. -/
-def legacyLoadWith (arg : Int → Option Int) (l : Legacy) : M TFld :=
+/-- `_h5_legacy_load_field`: `Mesh(region=Region(p1=p1, p2=p2), n=n)`, the side-car's
+subregions if the file exists, `cls(mesh, nvdim=dim, value=array[:])` -/
+def legacyLoad (l : Legacy) : M TFld :=
   (TReg.init l.p1 l.p2 none none TReg.defaultTol).bind fun r =>
     (TMesh.init r l.n "" []).bind fun m =>
       (sidecarLoad m l.sidecar).bind fun m' =>
-        TFld.init m' (arg l.dim) l.array none none none
-
-/-- The legacy reader as the code stands: it calls `cls(mesh, dim=dim, value=array[:])`;
-`Field.__init__` has no parameter `dim` any more (it lands in `**kwargs` and is ignored),
-so `nvdim` is `None`. -/
-def legacyLoad (l : Legacy) : M TFld := legacyLoadWith (fun _ => none) l
-
-/-- The legacy reader as documented ("files written by the legacy layout are still read"):
-the stored component count is the field's `nvdim`. -/
-def legacyLoadDoc (l : Legacy) : M TFld := legacyLoadWith some l
+        TFld.init m' (some l.dim) l.array none none none
 
 /-- `Field._from_hdf5` -/
 def h5Load : H5File → M TFld
